@@ -2124,9 +2124,50 @@ void mixed_product(std::string const &e, std::uint64_t i)
     VF_COUNT("mixed/matrix-vector-products");
   }
 }
+// scalar * vector and vector * scalar with different scalar and component types: every component is the exact product in
+// decltype(scalar * component) - in particular a narrow unsigned scalar does not convert a negative component
+template <class St, class Ct, size_type N>
+void mixed_scalar_vector(std::string const &e, std::uint64_t i)
+{
+  vf::rng g(vf::seed_for(e, i * 977U + N * 13U + sizeof(St) * 3U + sizeof(Ct)));
+  long long const sc = std::is_unsigned_v<St> ? g.range(0, 9) : g.range(-9, 9);
+  long long comp[N];
+  fm::vector::static_<Ct, N> v{fcppt::no_init{}};
+  std::string text = std::to_string(sc) + " *";
+  for (size_type k = 0; k < N; ++k)
+  {
+    comp[k] = std::is_unsigned_v<Ct> ? g.range(0, 9) : g.range(-9, 9);
+    v.storage()[k] = static_cast<Ct>(comp[k]);
+    text += " " + std::to_string(comp[k]);
+  }
+  if (!vf::begin_case("%s scalar x %s vector<%zu>: %s", tn2<St>(), tn2<Ct>(), static_cast<std::size_t>(N), text.c_str()))
+    return;
+  vf::note_distinct(vf::hash_str(text, vf::hash_str(e) + N * 7 + sizeof(St) * 100 + sizeof(Ct)));
+  St const scalar = static_cast<St>(sc);
+  auto const left = scalar * v;
+  auto const right = v * scalar;
+  std::string const key = std::string("scalar*vector<") + tn2<St>() + "," + tn2<Ct>() + ">";
+  for (size_type k = 0; k < N; ++k)
+  {
+    long long const want = static_cast<long long>(scalar * static_cast<Ct>(comp[k]));
+    if (static_cast<long long>(left.storage()[k]) != want)
+    {
+      vf::violation(key + "/scalar-on-the-left", "mismatch", "component " + std::to_string(k) + " is " + std::to_string(static_cast<long long>(left.storage()[k])) + ", scalar * component is " + std::to_string(want));
+      return;
+    }
+    if (static_cast<long long>(right.storage()[k]) != want)
+    {
+      vf::violation(key + "/scalar-on-the-right", "mismatch", "component " + std::to_string(k) + " is " + std::to_string(static_cast<long long>(right.storage()[k])) + ", component * scalar is " + std::to_string(want));
+      return;
+    }
+  }
+  VF_COUNT("mixed/scalar-vector-products");
+}
+
 template <class Lt, class Rt>
 void mixed_pair(std::string const &e, std::uint64_t i)
 {
+
   mixed_product<Lt, Rt, 2, 2, 2>(e, i);
   mixed_product<Lt, Rt, 2, 3, 2>(e, i);
   mixed_product<Lt, Rt, 3, 3, 3>(e, i);
@@ -2152,6 +2193,13 @@ void mixed_scalars()
     mixed_pair<unsigned char, unsigned char>(e, i);
     mixed_pair<unsigned char, int>(e, i);
     mixed_pair<int, long long>(e, i);
+    // (scalar types that promote: the combinations stay buildable whatever type the implementation computes in)
+    mixed_scalar_vector<unsigned short, int, 3>(e, i);
+    mixed_scalar_vector<unsigned char, int, 4>(e, i);
+    mixed_scalar_vector<signed char, int, 2>(e, i);
+    mixed_scalar_vector<short, int, 4>(e, i);
+    mixed_scalar_vector<signed char, signed char, 3>(e, i);
+    mixed_scalar_vector<unsigned char, unsigned char, 2>(e, i);
   }
 }
 }
@@ -2180,7 +2228,7 @@ void body()
 {
   for (char const *b :
        {"judged/model-comparisons", "judged/identities", "judged/aliasing-operands", "mixed/matrix-products",
-        "mixed/partial-sum-beyond-left-element-type", "mixed/matrix-vector-products", "m2/pairs", "m2/triples", "m2/matvec",
+        "mixed/partial-sum-beyond-left-element-type", "mixed/matrix-vector-products", "mixed/scalar-vector-products", "m2/pairs", "m2/triples", "m2/matvec",
         "random/matrix-algebra-cases", "random/matrix-product-cases", "random/vector-dim-cases",
         "exhaustive/vector-dim-pairs", "builders/cases", "matrix/det/zero", "matrix/det/nonzero",
         "matrix/nonsymmetric", "matrix/noncommuting-pair", "matrix/matvec/nonzero-result", "matrix/cmp/equal",
